@@ -60,6 +60,16 @@ checks["C09"]=dict(
    note="Trusted: text/template/parse trees of cog's own templates; the text of the emitted Go builder is inspected with the actions replaced by placeholders (no Go parsing of emitted code). Behaviour of generated builders (an option differs exactly at its target, Python semantics) is not decided.",
    technique="must-call-in-order on the Go call sites + template-AST rules (range/if/template nodes) + operator table",
    design="§3.C09")
+checks["C02"]=dict(
+   text="Generator-side necessary conditions: every place where a jenny can write one of cog's placeholder texts is located, the kind dispatch guarding it is recovered, and each kind it does not handle must be removed by the language's pass chain or carry a reviewed reason (nine genuine leaks recorded as findings, four fixed); Go scalar kinds printed verbatim are Go types; goimports is registered under exactly !SkipPostFormatting and its error fails the run; every module-qualified name written by the Go/Python/TypeScript jennies and templates has its import registered on the same path; iteration callbacks keep the first error; numbers reach the IR as int64/float64.",
+   note="Trusted: go/types resolution, text/template/parse trees, the reviewed table of placeholder sites (36) and its reasons. NOT decided: that emitted code type-checks / byte-compiles / compiles (target toolchains needed), option-combination interactions, Java/PHP import discipline.",
+   technique="kind-dispatch exhaustiveness against the per-language normal form (switch / predicate chain / kind-keyed map) + who-must-call rule for import registration (Go AST and template AST, call-site inheritance) + sticky-error flow rule + frontier taint rule for numbers",
+   design="§3.C02")
+checks["C10"]=dict(
+   text="Generator-side necessary conditions for 'declared defaults and constants reach the constructors unaltered': untyped values of the JSON Schema library reach the IR only through unwrapJSONNumber (total: Int64, else Float64, element-wise); the CUE front-end reads each kind with its own accessor; every JSON-family walker that builds a type carries the node's default; no compiler pass replacing a type drops its Default (Visitor callbacks and hand-rolled ast.NewRef rewrites); a default taken from a scalar constant comes from the operand known to be concrete; the Go and Python jennies use struct-default overrides unfiltered. Eight dropped-default defects fixed in /repo, one (union defaults in Go) recorded.",
+   note="Trusted: go/types resolution; the exemption tables (walkers for composition keywords and $ref, three fresh-reference sites). NOT decided: rendering of defaults by formatScalar/formatValue (maps, non-string lists), Go/Python agreement on concrete values, that constructors compile.",
+   technique="frontier taint rule (source: untyped library fields; sanitizer: unwrapJSONNumber; sinks: everything else) + sibling agreement of walkers + must-carry rule on type replacements + dominance of concreteness tests",
+   design="§3.C10")
 checks["C04"]=dict(
    text="Eight structural clauses, each a necessary condition of 'never panics / never hangs' (a reported site is a potential crash; every site reported on the pinned tree was triaged: 33 fixed in /repo, 7 recorded as findings): bounded recursion and loops through references (visited set / depth bound / leaf-kind test; closures included), no explicit panic reachable from the pipeline entry points, no unchecked single-value type assertion on `any` values, no pointer lookup used with its found-flag discarded, guarded constant indexing at the JSON-family parser frontier, kind-guarded access to kind-specific members of collection elements, consistent key derivation on probed-and-filled sets.",
    note="Trusted: the AST-level call graph (static calls, class-hierarchy interface calls, func-typed fields by stored values; func literals attributed to their enclosing function); text/template recovers panics of template functions. NOT decided: nil dereference of Type.<Kind> accessors on non-element values, index out of range on IR slices and CUE values, stack depth on deeply nested acyclic input, time/space blow-up, panics inside third-party libraries.",
